@@ -54,7 +54,7 @@ func runUpper(r *runner) {
 	if !ok {
 		panic(harnessBug("unknown unit " + s.str("unit")))
 	}
-	n := s.num("len")
+	n := s.num("n")
 	b := []byte(strings.Repeat(u, n/len(u)+1))[:n]
 	r.call("streams.UppercaseTransformer", func() error {
 		_, err := io.ReadAll(streams.UppercaseTransformer(&chunkReader{b: b, n: s.num("chunk")}))
